@@ -26,7 +26,7 @@ import (
 func batch(seed uint64, tier, which string) []program {
 	r := hk.NewRand(seed*1000003 + map[string]uint64{"inproc": 17, "race": 91}[which])
 	thorough := tier == "thorough"
-	per := map[string]int{"inproc": 36, "race": 70}[which]
+	per := map[string]int{"inproc": 24, "race": 36}[which]
 	if thorough {
 		per = map[string]int{"inproc": 320, "race": 600}[which]
 	}
@@ -36,6 +36,12 @@ func batch(seed uint64, tier, which string) []program {
 			p := genProgram(r.Fork(), k, thorough)
 			if k == "diskpacked" && round%3 == 0 {
 				p = targetFds(r.Fork())
+			}
+			if k == "encrypt" && round%2 == 0 {
+				p = targetEncDup(r.Fork())
+			}
+			if (k == "memcache" || k == "proxymc") && round%2 == 0 {
+				p = targetLRU(r.Fork(), k)
 			}
 			ps = append(ps, p)
 		}
@@ -70,6 +76,42 @@ func targetFds(r *hk.Rand) program {
 				ops = append(ops, opIn{Kind: "recv", K: k})
 			default:
 				ops = append(ops, opIn{Kind: "stat", K: k})
+			}
+		}
+		p.Clients = append(p.Clients, ops)
+	}
+	return p
+}
+
+// targetEncDup: pairs of clients upload the SAME blob with overlapping calls (the wrapped store of the
+// ciphertext is slow) and then fetch / stat what they were acknowledged.
+func targetEncDup(r *hk.Rand) program {
+	p := program{Kind: "encrypt", Pool: genPool(r, 5), YLevel: 2}
+	for c := 0; c < 6; c++ {
+		var ops []opIn
+		for i := 0; i < 3; i++ {
+			k := (c/2 + i) % len(p.Pool)
+			ops = append(ops, opIn{Kind: "recv", K: k}, opIn{Kind: "fetch", K: k}, opIn{Kind: "stat", K: k})
+		}
+		p.Clients = append(p.Clients, ops)
+	}
+	return p
+}
+
+// targetLRU is the program aimed at the LRU of memory.NewCache (directly, or as proxycache's cache): a few
+// blobs are received, then all clients fetch them over and over – every Fetch moves an LRU entry.
+func targetLRU(r *hk.Rand, kind string) program {
+	p := program{Kind: kind, Max: 1 << 20, Pool: genPool(r, 6), YLevel: 1}
+	for c := 0; c < 8; c++ {
+		var ops []opIn
+		for i := 0; i < 8; i++ {
+			switch {
+			case i == 0:
+				ops = append(ops, opIn{Kind: "recv", K: c % len(p.Pool)})
+			case r.Chance(85):
+				ops = append(ops, opIn{Kind: "fetch", K: r.Intn(len(p.Pool))})
+			default:
+				ops = append(ops, opIn{Kind: "stat", K: r.Intn(len(p.Pool))})
 			}
 		}
 		p.Clients = append(p.Clients, ops)
